@@ -461,3 +461,50 @@ def array_protocol_values(ck, rule):
             ck.bad(rule, f, "__array__ returns the values (get_val()) or, in raw mode, the codes", "returns %s" % src(pf.ret)[:60], pf.ret_stmt)
     ck.check(nv >= 1, rule, f, "__array__ has a value-exporting path", "no path returns self.get_val()", f.node)
     ck.saw(f)
+
+
+def scaled_value_type(ck, rule):
+    """C17.R8: whenever the normaliser applies the scale/bias map (it stores scaled = True), the question "is the value type int?" is asked on that
+    path, and where the answer selects the promotion the value type becomes float.  (A bias may be a float at run time whatever the scale is: a
+    promotion that is only reachable for scale != 1 leaves integer inputs with a float bias truncated.)"""
+    prog = ck.prog
+    fm = A.normaliser(prog)
+    n = 0
+    seen = set()
+
+    def asks_int(t):
+        for c in ast.walk(t):
+            if isinstance(c, ast.Compare) and len(c.ops) == 1 and isinstance(c.ops[0], (ast.Eq, ast.Is, ast.NotEq, ast.IsNot)) and dotted(c.left) == "vdtype" and dotted(c.comparators[0]) == "int":
+                return True
+        return False
+    for pf in fpaths(prog, fm):
+        if pf.end == "raise":
+            continue
+        if not any(st.path == "self.scaled" and isinstance(st.value, ast.Constant) and st.value.value is True for st in pf.stores):
+            continue
+        v = pf.env.get("vdtype")
+        n += 1
+        asked = [g for g in pf.guards if g[2] is not None and asks_int(g[2])]
+        # paths on which the value type is a literal non-int type (float()/Decimal/str arms) were decided by constant propagation: the test does not
+        # appear as a guard there because both outcomes are not possible
+        if not asked:
+            vv = [st.raw_value for st in pf.stores if st.path == "vdtype"]
+            if vv and dotted(vv[-1]) in ("float", "complex", "np.float64") :
+                continue
+            key = "untested"
+        else:
+            promoted = any(st.path == "vdtype" and dotted(st.raw_value) in ("float", "np.float64") for st in pf.stores)
+            if any(g[1] for g in asked) and not promoted:
+                key = "unpromoted"
+            else:
+                continue
+        if key in seen:
+            continue
+        seen.add(key)
+        ck.bad(rule, fm, "on every path that applies the scale/bias map the value type is tested for int (and promoted to float where the test selects it)",
+               "mapped path under %s on which vdtype == int is %s" % ([(src(g[0])[:40], g[1]) for g in pf.guards if "scale" in src(g[0]) or "bias" in src(g[0])][:4], "never tested" if key == "untested" else "not promoted"), fm.node,
+               "the mapped value is cast back to int before scaling: the fraction is truncated and no inaccuracy is flagged")
+    if n == 0:
+        ck.note("normaliser: no path applies the scale/bias map")
+    elif not seen:
+        ck.ok(rule, fm, "value type tested for int on all %d paths that apply the map" % n)
